@@ -209,7 +209,7 @@ def gen_for(stream, seed):
         for ev in sc["events"]:
             if ev["type"] == "arbitrary":
                 continue
-            new = rng.choice([1, 10**3, 10**6, 800, 2_500_000, 921.3])       # (921.3: thousands of another currency)
+            new = rng.choice([1, 10**3, 10**6, 800, 2_500_000, 921.3, 10**9, 10**12])       # (921.3: thousands of another currency)
             ratio = ev["emf"] / new
             ev["impact"] = {k: v * ratio for k, v in ev["impact"].items()}
             if ev.get("house"):
@@ -229,6 +229,7 @@ def gen_for(stream, seed):
             for rr in range(tb["m"]):
                 tb["Z"][rr * tb["n"] + si][j] = [4e-9, 2e-9, 1e-9][rr % 3] / tb["m"]
             tb["kind"] = tb["kind"] + "+tiny_supplier"
+            tb.pop("dtype", None)          # (no longer a table of whole numbers)
         sc["stream"] = "units"
         return sc
     if stream == "blackout":
@@ -439,6 +440,10 @@ def one_scenario(pid, sc, res, dr, stats, C, dist, seen_nontrivial, phases, add_
                     res["mismatches"].append(dict(m_))
             for oname in props.RUN_ORACLES.get(pid, []):
                 for v in RUN_FUNCS[oname](tr, c):
+                    add_violation(v, sc)
+            if pid in getattr(props, "REPORTED", {}):
+                from harness import special as _sp
+                for v in _sp.records_match_trace(tr, pid, props.REPORTED[pid]):
                     add_violation(v, sc)
             if pid == "C07":
                 # the capital stock does not depend on the order in which the table / the ratio dict are given
